@@ -104,9 +104,13 @@ CLAIMS.update({
         "real runs and the monitor compares callbacks with ground-truth acceptances and fills.",
    note=S_NOTE),
  "C13": dict(level="proof", suites=["S"], design="5/C13",
-   technique="Coq proof of dispatch exactness (multiset equality) for every hook table + invariance of the table over the run + differential correspondence of probe hook calls",
+   technique="Coq proof of dispatch exactness for every hook table, invariance of the table over the run and a whole-run theorem for the hook calls of the order phase (relational adds-lemmas composed through the runner) + differential correspondence of probe hook calls",
    text="Theorems C13_* (props/C13.v): for every occurrence the invoked hooks are, as a multiset, exactly the registered hooks of that kind/phase whose time list is absent or contains the time; "
-        "always-hooks precede timed hooks; repeated time entries do not duplicate; the table is fixed during any run. Probe events with random hook specs (all kinds, time lists with repeats, "
+        "always-hooks precede timed hooks; repeated time entries do not duplicate; the table is fixed during any run. "
+        "Whole runs, order phase (theories/SimHooks.v): for every configuration with distinct market ids, hook table, tape, agent behaviour and fundamental path, a run that ends without "
+        "exception has a stream of [user-event hook calls around orders, cancels and fills + acceptances + callbacks] equal to what the records born in the markets call for - per accepted "
+        "order its before-hooks (at the acceptance time), the acceptance, the owner's callback, its after-hooks; likewise per cancel; per fill the callbacks then the after-execution hooks - "
+        "so each registered hook fires exactly once per matching occurrence and at no other moment. Session and market-step hooks are decided by the correspondence and the monitor. Probe events with random hook specs (all kinds, time lists with repeats, "
         "instance and class filters) record every call; the stream is compared with the model and the monitor recomputes the expected calls from ground-truth occurrences.",
    note=S_NOTE),
  "C14": dict(level="proof", suites=["S"], design="5/C14",
